@@ -611,6 +611,22 @@ class Exprs:
         return Ex("unknown")
 
 
+def subst(e, args, depth=0):
+    """Replace parameter nodes of a callee's expression by the caller's argument expressions."""
+    if depth > 30:
+        return e
+    if e.kind == "param":
+        return args[e.a] if e.a < len(args) else e
+    if not e.kids:
+        return e
+    kids = [subst(k, args, depth + 1) for k in e.kids]
+    if e.kind == "field":
+        sel = _select_field(kids[0], e.a)
+        if sel is not None:
+            return sel
+    return Ex(e.kind, e.a, kids, f=e.f)
+
+
 def atoms(e, out=None, depth=0):
     """Leaf descriptors an expression is computed from."""
     if out is None:
